@@ -250,7 +250,7 @@ func (s *Swarm) genBatch(rng *vrt.Rand, r *Runner, maxOps int, withGets bool) *O
 // genPlain produces the generic adaptive generator used by the single-client arms: it draws steps by weight.
 func (s *Swarm) genPlain(rng *vrt.Rand, restartCfg func() *Config) func(r *Runner, i int) *Op {
 	kinds := make([]string, 0, len(s.W))
-	for _, k := range []string{"put", "del", "get", "sync", "merge", "list", "fold", "stat", "restart", "batch", "iter", "backup"} {
+	for _, k := range []string{"put", "del", "get", "sync", "merge", "list", "fold", "stat", "restart", "kill", "batch", "iter", "backup"} {
 		if s.W[k] > 0 {
 			kinds = append(kinds, k)
 		}
@@ -303,7 +303,7 @@ func (s *Swarm) genPlain(rng *vrt.Rand, restartCfg func() *Config) func(r *Runne
 				op.Flag = true
 				op.N = rng.Intn(4)
 			}
-		case "restart":
+		case "restart", "kill":
 			op.Cfg = restartCfg()
 		case "batch":
 			op = s.genBatch(rng, r, 6, true)
@@ -472,6 +472,9 @@ func init() {
 		}
 		if s.W["merge"] > 3 {
 			s.W["merge"] = 3
+		}
+		if rng.Chance(0.25) {
+			s.W["kill"] = 1 // the process dies between two operations and the history continues on the recovered database
 		}
 		return s.genPlain(rng, func() *Config { cfg := c.Cfg; return &cfg })
 	}
@@ -694,6 +697,9 @@ func init() {
 		s.W["batch"] += 4
 		s.W["merge"] += 1
 		s.W["restart"] += 1
+		if rng.Chance(0.4) {
+			s.W["kill"] = rng.Range(1, 3) // the process dies between two operations; Stat is recomputed after the recovery too
+		}
 		return s.genPlain(rng, restartCfgFn(c, rng, true, 0.5))
 	}
 	// C18: hint fidelity
